@@ -25,7 +25,9 @@ meta['property'] = prop
 meta['confirmed'] = {'demo_pristine': 'PASS (rc 0)', 'demo_patched': 'FAIL (rc 1)',
                      'baseline_with_patch': '95/95 stable tests pass',
                      'ran': 'tools/seedtest.sh %s <dir> %s  (git apply on /repo, demo, tools/baseline.sh, ./vcheck <prop> --tier quick, git checkout -- .)' % (prop, ' '.join(checks))}
-meta['check_result'] = {c: ('CAUGHT (exit 1, VIOLATION)' if rc == '1' else 'exit %s' % rc) for c, rc in caught.items()}
+meta['check_result'] = {c: ('CAUGHT (exit 1, VIOLATION)'
+                            if rc == '1' and ('VIOLATION property=%s' % c) in out
+                            else 'exit %s' % rc) for c, rc in caught.items()}
 vio = re.findall(r'counterexample (.*)', out)
 meta['counterexamples'] = vio[:3]
 json.dump(meta, open(os.path.join(dst, 'meta.json'), 'w'), indent=1)
